@@ -5,7 +5,7 @@
 set -u
 D=$(readlink -f "$1"); shift
 EXTRA="$*"
-WT=/tmp/confirm_wt
+WT=${CONFIRM_WT:-/tmp/confirm_wt}
 if [ ! -d $WT ]; then git -C /repo worktree add --detach $WT HEAD -q; fi
 cd $WT && git checkout -q --detach $(git -C /repo rev-parse HEAD) 2>/dev/null; git checkout -q -- . ; rm -f jmespath/tests/seeded_demo.rs
 res() { echo "{\"dir\":\"$D\",\"applies\":$1,\"suite_passes_with_patch\":$2,\"demo_fails_with_patch\":$3,\"demo_passes_without_patch\":$4,\"extra\":\"$EXTRA\"}"; }
@@ -17,10 +17,10 @@ out=$(cargo test --workspace --no-fail-fast --offline 2>&1); echo "$out" | grep 
 echo "$out" | grep -q "test result: ok" || SUITE=false
 cp "$D/demo.rs" tests/seeded_demo.rs
 TC=""; case "$EXTRA" in *specialized*) TC="+nightly";; esac
-cargo $TC test --offline $EXTRA --test seeded_demo >/tmp/confirm_with.log 2>&1; rc1=$?
-FAILS=false; [ $rc1 -ne 0 ] && grep -q "test result: FAILED\|panicked\|FAILED" /tmp/confirm_with.log && FAILS=true
+cargo $TC test --offline $EXTRA --test seeded_demo >$WT.with.log 2>&1; rc1=$?
+FAILS=false; [ $rc1 -ne 0 ] && grep -q "test result: FAILED\|panicked\|FAILED" $WT.with.log && FAILS=true
 cd $WT && git checkout -q -- . && cd jmespath
-cargo $TC test --offline $EXTRA --test seeded_demo >/tmp/confirm_without.log 2>&1; rc2=$?
-PASSES=false; [ $rc2 -eq 0 ] && grep -q "test result: ok" /tmp/confirm_without.log && PASSES=true
+cargo $TC test --offline $EXTRA --test seeded_demo >$WT.without.log 2>&1; rc2=$?
+PASSES=false; [ $rc2 -eq 0 ] && grep -q "test result: ok" $WT.without.log && PASSES=true
 rm -f tests/seeded_demo.rs
 res true $SUITE $FAILS $PASSES
